@@ -322,4 +322,4 @@ func Floats() []float64 {
 }
 
 // Strs is the string pool of C05.
-func Strs() []string { return []string{"", "a", "ab", "1", "1.5", "-2"} }
+func Strs() []string { return []string{"", "a", "ab", "1", "3", "1.5", "-2"} }
